@@ -345,6 +345,14 @@ func VReplayNs(task engine.SeqTask) (res engine.SeqResult) {
 					chk.fail("C13:compact-without-error", err.Error(), nil)
 				}
 			}()
+		case "lookup":
+			// a reader asks for entities by full URI: the first mention of a namespace can be a read
+			for _, t := range nsSets[op.N] {
+				u := fmt.Sprintf(strings.ReplaceAll(t, "%s", "%[1]s"), "h"+h.Tag)
+				if _, err := w.Store.GetEntity(u, nil, true); err != nil {
+					chk.fail("C13:lookup-fails", "looking an entity up by its full URI failed: "+err.Error(), nil)
+				}
+			}
 		case "baduse":
 			// a batch the store must reject (null reference value); its new identifiers stay pending
 			ds := w.Dsm.GetDataset(h.DsName(op.DS))
@@ -662,7 +670,7 @@ func init() {
 	})
 
 	engine.RegisterCheck("C13", func(r *engine.Run) {
-		r.Rule = "ENUM: every URI of a grammar (2 schemes x 3 authorities x 6 paths x 5 fragments x 6 local parts, incl. empty local part and colons) is compacted and expanded through every API that does so; SEQ: every order of first use of 4 URI sets over 2 datasets (as batches, and as transactions through a contextual store the way ExecuteTransaction() of a javascript transform issues them) with restarts and a rejected batch, up to the stated depth, checking bijection, permanence and persisted=memory after every step; CRASH: real SIGKILL at every durable commit of such histories; SCHED: asserters of the same/different expansions, writers introducing the same new identifiers, and context readers/serialisers under every interleaving up to the preemption bound, with a happens-before monitor on the namespace map; distinct = distinct canonical states / outcomes"
+		r.Rule = "ENUM: every URI of a grammar (2 schemes x 3 authorities x 6 paths x 5 fragments x 6 local parts, incl. empty local part and colons) is compacted and expanded through every API that does so; SEQ: every order of first use of 4 URI sets over 2 datasets (as batches, and as transactions through a contextual store the way ExecuteTransaction() of a javascript transform issues them) with restarts, a rejected batch and lookups by full URI (a read as the first mention of a namespace), up to the stated depth, checking bijection, permanence and persisted=memory after every step; CRASH: real SIGKILL at every durable commit of such histories; SCHED: asserters of the same/different expansions, writers introducing the same new identifiers, and context readers/serialisers under every interleaving up to the preemption bound, with a happens-before monitor on the namespace map; distinct = distinct canonical states / outcomes"
 		r.Assumptions = []string{"badger transactions are linearizable and commits atomic w.r.t. process kill"}
 		// ENUM
 		pool := &engine.Pool{N: 1, Args: []string{"worker", "c13-enum"}, Timeout: 120 * time.Second}
@@ -692,7 +700,8 @@ func init() {
 		alpha = append(alpha, VOp{K: "use", DS: "B", N: 1}, VOp{K: "use", DS: "B", N: 2}, VOp{K: "restart"})
 		// writes arriving as transactions through a contextual store (created when the history began / just now), and a
 		// rejected batch that leaves identifiers pending
-		alpha = append(alpha, VOp{K: "use", DS: "A", N: 3, Via: "ctx0"}, VOp{K: "use", DS: "B", N: 0, Via: "ctx"}, VOp{K: "baduse", DS: "A", N: 1})
+		alpha = append(alpha, VOp{K: "use", DS: "A", N: 3, Via: "ctx0"}, VOp{K: "use", DS: "B", N: 0, Via: "ctx"}, VOp{K: "baduse", DS: "A", N: 1},
+			VOp{K: "lookup", N: 0}, VOp{K: "lookup", N: 2})
 		depth, budget := 4, 90
 		if !r.Quick() {
 			depth, budget = 6, 1800
